@@ -8,6 +8,9 @@ CONSTANTS
   MaxNodes = 1
   MaxStack = 1
   BugOptionalDropsNone = FALSE
+  FixedStar = FALSE
+  FixedFinalInString = FALSE
+  FixedNestedLiteral = FALSE
   AnnChoices = {"noann", "int", "QA", "T"}
   DefaultChoices = {"none", "int:1", "..."}
   RetChoices = {"noann", "int", "QA"}
@@ -18,6 +21,7 @@ CONSTANTS
   MaxPos = 3
   MaxKw = 2
   BugRuntimeIgnoresKwDefaults = FALSE
+  FixedDunder = FALSE
 INVARIANT HeaderViewsAgree
 INVARIANT ViewsMatchInspect
 CHECK_DEADLOCK FALSE
